@@ -719,6 +719,10 @@ class Effects:
                     cur = cur.value
                 elif isinstance(cur, ast.Call) and isinstance(cur.func, ast.Attribute) and cur.func.attr in ("values", "items", "get", "setdefault") :
                     cur = cur.func.value
+                elif isinstance(cur, ast.Call) and isinstance(cur.func, ast.Attribute) and cur.func.attr in ("ravel", "reshape", "view", "squeeze", "transpose", "swapaxes", "diagonal"):
+                    # numpy methods that hand out a view of the array whenever they can: a store through the result may (or,
+                    # for a non-contiguous array, may silently not) write the tracked array
+                    cur = cur.func.value
                 elif isinstance(cur, ast.Name):
                     return out.get(cur.id)
                 else:
